@@ -89,23 +89,23 @@ def process (sc : ScJ) (obs : ObsJ) : Except String Json := do
   let ds ← match sc.decisions.mapM parseDecision with | some d => pure d | none => throw "bad decision"
   let p0 := init obs.cap sc.workers
   let fuel := 20 * (ds.length + 20)
-  let states ← match simulate fuel p0 ds with
-    | some s => pure s
-    | none => throw "decision not enabled in the model"
+  let (states, diverged) := match simulate fuel p0 ds with
+    | some s => (s, false)
+    | none => ([], true)
   let mPoints := states.map pointOf
   let final := states.getLast?.getD p0
   let nTasks := (ds.filter fun d => match d with | .submit _ => true | _ => false).length
   let mCounts := (List.range nTasks).map fun t => if final.finished.contains t || final.running.contains t then 1 else 0
   let mLeaked := if final.closed then final.w - final.exited - final.running.length else 0
   let closed := ds.contains .close
-  let agree := obs.points == mPoints && obs.execCounts == mCounts && (!closed || obs.leaked == mLeaked)
+  let agree := !diverged && obs.points == mPoints && obs.execCounts == mCounts && (!closed || obs.leaked == mLeaked)
     && obs.cap == 2 * p0.w
   let mObs : ObsJ := { points := mPoints, execCounts := mCounts, leaked := mLeaked, cap := obs.cap }
   let kv (l : List (String × Bool)) : Json := Json.mkObj (l.map fun (k, b) => (k, Json.bool b))
   let nt := [("C12", nTasks > obs.cap + p0.w || (ds.contains .wait && closed)), ("C08", nTasks > p0.w)]
   pure (Json.mkObj [("agree", Json.bool agree),
     ("spec", kv [("C12", specC12 ds obs), ("C08", specC08 p0.w ds obs)]),
-    ("specModel", kv [("C12", specC12 ds mObs), ("C08", specC08 p0.w ds mObs)]),
+    ("specModel", kv [("C12", diverged || specC12 ds mObs), ("C08", diverged || specC08 p0.w ds mObs)]),
     ("nontrivial", kv nt), ("model", toJson mObs)])
 
 def handle (sc obs : Json) : Json :=
